@@ -65,9 +65,9 @@ var authorsPool = []string{
 }
 var plainAuthors = []string{"Ann Lee", "dev42", "R2 D2", "Phodal Huang", "bob", "Build Bot 2", "Zoe"}
 
-var dirsPool = []string{"", "", "src", "src/main", "src/main/java", "docs", "lib/core util", "a/b/c/d", "pkg", "my docs/user guide", "cmd"}
+var dirsPool = []string{"", "", "src", "src/main", "src/main/java", "docs", "lib/core util", "a/b/c/d", "pkg", "my docs/user guide", "cmd", "docs/release  notes", "src/my  module"}
 var plainDirs = []string{"", "src", "src/main", "docs", "a/b/c/d", "pkg", "cmd"}
-var subDirs = []string{"sub", "internal", "v2", "old stuff", "impl"}
+var subDirs = []string{"sub", "internal", "v2", "old stuff", "impl", "two  blanks"}
 var plainSubDirs = []string{"sub", "internal", "v2", "impl"}
 var exts = []string{".txt", ".go", ".md", ".java", ".cfg"}
 var words = []string{"alpha", "beta", "gamma", "delta", "omega", "kappa", "sigma", "theta", "lambda", "zeta"}
@@ -245,6 +245,10 @@ func (g *gen) subject(author string, dateShort string) (string, string) {
 	case 8:
 		return cc() + "add 3 5 " + w + " table", "numstat-like"
 	case 9:
+		if r.Bool() {
+			// an ordinary commit whose subject merely starts like a merge commit's
+			return "Merge " + r.Pick([]string{"sort: first implementation of ", "the two " + w + " tables into ", "branch-like wording for "}) + w, "merge-like"
+		}
 		return "12 7 " + w + ".txt", "numstat-like"
 	case 10:
 		return "a: b: c :: " + w + " [" + w + "]", "colons"
